@@ -1,6 +1,8 @@
 package main
 
 import (
+	"bytes"
+
 	storetypes "cosmossdk.io/store/types"
 	sdk "github.com/cosmos/cosmos-sdk/types"
 
@@ -38,7 +40,17 @@ func obsCtx(ctx sdk.Context) sdk.Context {
 func (h *TxHooks) install(app *elysapp.ElysApp) {
 	ante := app.AnteHandler()
 	app.SetAnteHandler(func(ctx sdk.Context, tx sdk.Tx, simulate bool) (sdk.Context, error) {
-		h.idx++
+		// identify the transaction by its bytes: baseapp rejects some transactions
+		// (ValidateBasic failures) before the ante handler is ever called
+		if h.blk != nil {
+			bz := ctx.TxBytes()
+			for j := h.idx + 1; j < len(h.blk.Txs); j++ {
+				if bytes.Equal(h.blk.Txs[j].Bytes, bz) {
+					h.idx = j
+					break
+				}
+			}
+		}
 		newCtx, err := ante(ctx, tx, simulate)
 		if err == nil && h.blk != nil && h.idx < len(h.blk.Txs) {
 			t := h.blk.Txs[h.idx]
